@@ -30,15 +30,24 @@ def _sb_target():
 # `--features sandboxed` (reactive_graph/sandboxed-arenas + the real leptos_integration_utils)
 HARNESS_ENV = {"H_ISO_SB": os.path.join(_sb_target(), "release", "h_iso")}
 
-RULE = ("a case = (obs sandboxed ooo pipeline fine programs schedule): 2-3 view programs from the grammar text / "
+RULE = ("a case = (obs sandboxed stream pipeline fine programs schedule): 2-3 requests, each a view program from the grammar text / "
         "context-printing leaf / reactive closure (two kinds: rendered under a fixed owner, or under a timing-dependent one) / element / sequence / <Provider> / Suspend(gate) / <Suspense> / "
         "Resource and OnceResource whose fetcher reads context before and after a gate / on_cleanup / StoredValue "
-        "and RwSignal allocation + later read / a reactive_graph::spawn background task reading a handle (oracle-only cases); rendered concurrently like integrations/utils build_response + from_app "
-        "(hand transcription, or the real from_app in the sandboxed build) on the harness-owned executor. Coarse "
+        "and RwSignal allocation + later read / a reactive_graph::spawn background task reading a handle (oracle-only cases), "
+        "plus (anchor coverage audit, coverage/C20.md) leaves reading context through expect_context / with_context / update_context / take_context / "
+        "use_context_bidirectional, <For>/<ForEnumerate> rows, <Transition>, Unsuspend, components using Owner::new / child / cleanup / with_cleanup directly, "
+        "leaves using the request's SsrSharedContext directly (next_id, errors, incomplete chunks, with_hydration / with_no_hydration, axum ResponseOptions), "
+        "<Router> with <FlatRoutes> / nested <Routes>+<ParentRoute>+<Outlet> / fallback whose route views report the request's route parameter, "
+        "every resource constructor (Resource / OnceResource / ArcResource / ArcOnceResource x blocking x string codec, AsyncDerived / ArcAsyncDerived, Arc->arena conversion) "
+        "read by .await / .get() under <Suspense> / by_ref / ready / map, spawn_local_scoped(_with_cancellation) tasks; "
+        "or a SERVER-FUNCTION request handled by the shipped leptos_axum::handle_server_fns_with_context whose body reads context, allocates, registers a cleanup and awaits a gate. "
+        "Pages are rendered concurrently like integrations/utils build_response + from_app "
+        "(hand transcription, the real from_app, or the real leptos_axum page handlers (one handler shared by all requests) in the sandboxed build) with the 4 stream builders of the integrations "
+        "(out-of-order, in-order lazy, in-order eager, async = builder collects the stream) on the harness-owned executor. Coarse "
         "schedules (start = build_response + first poll / create = build_response only, first poll later / complete gate g / run request to quiescence / finish) are enumerated exhaustively as all "
-        "interleavings of the two requests' action lists for small program pairs and drawn from the PRNG (VERIF_SEED) "
-        "beyond (plus oracle-only schedules in which a response is dropped from outside while another request is current and tasks that outlive their request are polled afterwards), each in 4 configurations (arenas global or sandboxed x in-order or out-of-order streaming) and emitted "
-        "twice: obs=0 (abstract trace, compared with the Coq model) and obs=1 (responses + solo replays, for the "
+        "interleavings of the two requests' action lists (three shapes: start first, both created before any poll, future completed before the first poll) for small program pairs and drawn from the PRNG (VERIF_SEED) "
+        "beyond (plus oracle-only schedules in which a response is dropped from outside while another request is current and tasks that outlive their request are polled afterwards), in configurations arenas global or sandboxed x stream builder x pipeline and emitted "
+        "twice: obs=0 (abstract trace, compared with the Coq model when every construct is modelled) and obs=1 (responses + solo replays, for the "
         "oracle). Fine schedules (every single task poll / gate completion chosen by the case) over deeper programs are "
         "oracle-only. A case is non-trivial when at least two requests are in flight at the same time and one of them "
         "has an await; distinct = distinct case hash.")
@@ -46,8 +55,14 @@ TRUSTED = [
     "Coq 8.16.1 kernel (coqc); no axioms: every theorem of Properties_C20.v is 'Closed under the global context'",
     "extraction to OCaml with ExtrOcamlBasic only, ocamlfind ocamlopt 4.13.1, extract/driver.ml sexp I/O",
     "harness/iso (Rust): its executor (one queue, wakers = flags, attribution of spawned tasks to the request whose "
-    "action is running), its view builders for the grammar, its transcription of build_response/from_app for the "
-    "non-sandboxed build (the sandboxed build can and does drive the real leptos_integration_utils::from_app: pipeline 1)",
+    "action is running), its view builders for the grammar, its transcription of build_response/from_app and of the four "
+    "stream builders of integrations/axum|actix for the non-sandboxed build (the sandboxed build can and does drive the real "
+    "leptos_integration_utils::from_app: pipeline 1, and the real leptos_axum page and server-function handlers: pipeline 3 / op 22; "
+    "the response nonce, random by design, is blanked before responses are compared)",
+    "compared, not proved (oracle-only, no Coq counterpart): router, resource constructors/read paths other than Resource::new/"
+    "OnceResource::new + .await, Owner::cleanup/with_cleanup by hand, SsrSharedContext API, take_context/use_context_bidirectional, "
+    "spawn_local_scoped*, server-function requests, leptos_axum handlers; the actix integration is not driven (same build_response/from_app; "
+    "its server-function handler has the axum shape and got the same repair)",
     "modelled, not verified: the mapping from view constructs to wrappers (Ambient.compile: which ScopedFuture / "
     "Owner::with / OwnedView / Sandboxed / spawn each of Suspend, Suspense, Provider, Resource, OnceResource, "
     "build_response applies) is hand-transcribed; THAT THE CODE APPLIES A WRAPPER AT EVERY BOUNDARY is not proved — "
@@ -81,7 +96,8 @@ LEVEL_TEXT = ("Level: proof of the scoping discipline, partial for adherence. Co
 LEVEL_NOTE = ("Trusted: Coq kernel, extraction, the Rust harness (executor, view builders, transcription of "
               "build_response for the non-sandboxed build), the hand-written map construct->wrappers (Ambient.compile). "
               "Single thread only; intra-request timing abstracted (sets of observations; async depth 1 in compared "
-              "cases). No axioms.")
+              "cases). Router, resource variants / synchronous reads, SsrSharedContext API, server-function requests and the "
+              "real leptos_axum handlers are compared (solo-replay oracle), not proved. No axioms.")
 TECHNIQUE = ("Coq proof (non-interference: invariant 'inside a wrapper the ambient owner/arena belong to the polled "
              "task's request' by nested induction on task programs, then induction on the schedule) + differential "
              "correspondence of the extracted model with real concurrent SSR renders + solo-replay oracle")
@@ -118,7 +134,7 @@ class Gen:
             if k < 0.75 and not sync and not top:
                 return [UNSUSPEND, self.probe()]
             if self.ext >= 2:
-                return [SCLEAF, self.probe(), self.rng.randrange(5)]
+                return [SCLEAF, self.probe(), self.rng.randrange(6)]
         if r < 0.35:
             return [LEAF, self.probe()]
         if r < 0.65 and not sync:
@@ -365,7 +381,7 @@ SMALL_EXT = [
     [TRANSITION, [LEAF, 1], [SEQ, [OWNERAPI, 0, 1, 0, [PROVIDE, 3, [SUSPEND, 0, 2, [DYNL, 3]]]], [FOR, 1, 3, [DYNL, 4]], [UNSUSPEND, 5]]],
     [PROVIDE, 1, [ROUTER, 1, 1, [SEQ, [LEAF, 3], [DYNL, 4]], [SEQ, [SUSPEND, 0, 5, [CTXLEAF, 6, 5]],
                                                                 [RES2, 0, 0, 1, 0, 7, 8, 9, [TEXT]]]]],
-    [ALLOC, 1, [SEQ, [ROUTER, 0, 1, [RES2, 2, 1, 0, 0, 3, 4, 5, [ITEM, 6, 1]], [TEXT]], [SCLEAF, 7, 1], [SCLEAF, 8, 0],
+    [ALLOC, 1, [SEQ, [ROUTER, 0, 1, [RES2, 2, 1, 0, 0, 3, 4, 5, [ITEM, 6, 1]], [TEXT]], [SCLEAF, 7, 1], [SCLEAF, 8, 5],
                 [BGREAD, 0, 9, 1, 1]]],
     [SEQ, [RES2, 4, 0, 4, 0, 1, 2, 3, [LEAF, 4]], [RES2, 3, 3, 3, 0, 5, 6, 7, [CTXLEAF, 8, 4]],
      [OWNERAPI, 1, 1, 0, [ALLOC, 2, [SUSPEND, 0, 9, [ITEM, 10, 2]]]]],
@@ -512,7 +528,7 @@ def wf_prog(p, slots=()):
     if op == OWNERAPI:
         return len(a) == 4 and ints(a[:3]) and a[0] < 3 and a[2] < 8 and wf_prog(a[3], slots)
     if op == SCLEAF:
-        return len(a) == 2 and ints(a) and a[1] < 5
+        return len(a) == 2 and ints(a) and a[1] < 6
     if op == FOR:
         return len(a) == 3 and ints(a[:2]) and a[0] < 2 and a[1] < 5 and wf_prog(a[2], slots)
     if op == TRANSITION:
